@@ -16,9 +16,13 @@ package limitscanner
 //@   function
 //@   reads ghost_scanEpoch
 
+// Resuming a sliced pass: the entry at the resume position is stepped over only
+// if it is the unchanged last entry of the previous slice (same key and same
+// value); anything else at that position has not been looked at yet.
 //@ func (s *LimitScanner) Scan
 //@   trusted
 //@   modifies ghost_scanEpoch, *s
+//@   at_call lmdbscan.(*Scanner).Set#1 assert steps_over_the_unchanged_last_entry_only: seqEq(s.Key(), s.opt.Last.key) && seqEq(s.Val(), s.opt.Last.val)
 
 //@ func (s *LimitScanner) Cursor
 //@   trusted
